@@ -2,6 +2,8 @@ import QtyModel.Oracle
 import QtyModel.Generated.Catalogue
 import QtyModel.Generated.Astro
 import QtyModel.Generated.Synth
+import QtyModel.SIPrefix
+import QtyModel.Spec.SI
 /-
   Line-protocol driver.
 
@@ -316,6 +318,29 @@ def step (line impl : String) : String × Verdict :=
         (out, v)
       else bad
     | _, _, _, _, _ => bad
+  | ["si", "iter"] =>
+    let row (i : Text) : String :=
+      s!"{Text.toString i}:h{hexOfText ((SIPrefix.name i).getD [])}:h{hexOfText ((SIPrefix.abbr i).getD [])}:{(SIPrefix.exp i).getD 999}"
+    let out := " ".intercalate (SIPrefix.iter.map row)
+    let specOut := " ".intercalate (Spec.SI.rows.map (fun r =>
+      s!"{Text.toString r.ident}:h{hexOfText r.name}:h{hexOfText r.abbr}:{r.exp}"))
+    (out, check (impl == specOut) "prefix table (iteration order, names, abbreviations, exponents) differs from the SI brochure table")
+  | ["si", "exp", n] =>
+    match n.toInt? with
+    | some e =>
+      let f (o : Option Text) : String := match o with
+        | some p => Text.toString p | none => "none"
+      let specR := (Spec.SI.rows.find? (fun r => r.exp == e)).map (·.ident)
+      (f (SIPrefix.fromExp e), check (impl == f specR) "from_exp does not return exactly the prefix with that exponent")
+    | none => bad
+  | ["si", "abbr", h] =>
+    match textOfHex h with
+    | some t =>
+      let f (o : Option Text) : String := match o with
+        | some p => Text.toString p | none => "none"
+      let specR := (Spec.SI.rows.find? (fun r => r.abbr == t)).map (·.ident)
+      (f (SIPrefix.fromAbbr t), check (impl == f specR) "from_abbr does not return exactly the prefix with that abbreviation")
+    | none => bad
   | ["fit", t, a] =>
     match W.find t, C.parse a with
     | some T, some a =>
